@@ -416,7 +416,7 @@ def subchecks(tier):
             prop,
             quick=1500,
             thorough=150000,
-            floors={"near_boundary": 0.454, "rejected": 0.5, "with_ev": 0.149, "finite": 0.15, "deadband": 0.071, "cont": 0.15, "infinite_maximum_fed_back": 0.042, "nan_pilot": 0.1, "at_least_64_levels": 0.02, "callers_list_edited_afterwards": 0.012, "rates_from_one_shot_iterable": 0.033},
+            floors={"near_boundary": 0.454, "rejected": 0.5, "with_ev": 0.149, "finite": 0.15, "deadband": 0.071, "cont": 0.15, "infinite_maximum_fed_back": 0.042, "nan_pilot": 0.1, "at_least_64_levels": 0.017, "callers_list_edited_afterwards": 0.012, "rates_from_one_shot_iterable": 0.029},
         )
     ]
 
